@@ -1421,7 +1421,27 @@ func ruleMapDecode(c *Ctx) []Ob {
 	// pool constructor
 	if init := c.SSA[pkgReflect].Func("initOrGetMapTmpVarsPool"); init != nil {
 		okNew := false
-		for _, af := range init.AnonFuncs {
+		// the constructor is whichever function fills a tmpMapVars (the pool's New closure or a helper it calls)
+		var ctors []*ssa.Function
+		for _, mf := range c.ModuleFuncs(pkgReflect) {
+			cands := append([]*ssa.Function{mf}, mf.AnonFuncs...)
+			for _, cf := range cands {
+				fills := false
+				for _, b := range cf.Blocks {
+					for _, ins := range b.Instrs {
+						if st, ok := ins.(*ssa.Store); ok {
+							if _, typ, _, ok := fieldOf(st.Addr); ok && typ == "tmpMapVars" {
+								fills = true
+							}
+						}
+					}
+				}
+				if fills {
+					ctors = append(ctors, cf)
+				}
+			}
+		}
+		for _, af := range ctors {
 			got := map[string]string{}
 			for _, b := range af.Blocks {
 				for _, ins := range b.Instrs {
